@@ -170,6 +170,36 @@ def l2_krylov_invariant(run, rng, quick):
                           dict(n=n, m=m, complex_A=cplx, dt=str(dt), block_size=bs, link=eps, rel_err=err, krylov_steps=int(j),
                                A=dict(re=a.real.tolist(), im=np.imag(a).tolist()), v=dict(re=np.real(v).tolist(), im=np.imag(v).tolist()),
                                what="start vector in a block coupled to the rest by one weak element: result differs from expm(dt A) v by more than 3e-6"))
+    # the same situation in the Lanczos basis itself: A = Q T Q^H with T tridiagonal, an n1 x n1 block, ONE small off-diagonal
+    # entry (3e-3..6e-3), then a second block; v = |v| Q e_0, so the recurrence walks along T and crosses the weak link at
+    # step n1 exactly (n1 odd: right between two of the routine's convergence checks)
+    for _ in range(40 if quick else 300):
+        n = int(rng.integers(30, 60))
+        n1 = int(rng.choice([5, 5, 7, 9]))
+        al = np.concatenate([rng.uniform(-2, 2, n1), rng.uniform(-4, 4, n - n1)])
+        be = np.concatenate([rng.uniform(1.5, 3.0, n1 - 1), [rng.uniform(3e-3, 6e-3)], rng.uniform(1.5, 3.0, n - n1 - 1)])
+        tri = np.diag(al) + np.diag(be, 1) + np.diag(be, -1)
+        cplx = bool(rng.random() < 0.5)
+        q, _ = np.linalg.qr(rng.normal(size=(n, n)) + (1j * rng.normal(size=(n, n)) if cplx else 0))
+        a = q @ tri @ q.conj().T
+        a = (a + a.conj().T) / 2
+        v = float(rng.uniform(0.5, 3.0)) * q[:, 0]
+        dt = [-1j, 1.0, 1j, -1.0][int(rng.integers(4))] * float(rng.uniform(0.7, 1.0))
+        bs = int(rng.integers(2, 51))
+        try:
+            got, j = expm_krylov(lambda y: a @ y, dt, v.copy(), block_size=bs)
+        except Exception as e:  # noqa
+            run.violation(f"krylov:weak-link:raises:{type(e).__name__}", dict(n=n, n1=n1, complex_A=cplx, dt=str(dt), block_size=bs, error=repr(e)[:200]))
+            continue
+        ref = scipy.linalg.expm(dt * a) @ v
+        err = float(np.linalg.norm(np.asarray(got).ravel() - ref) / np.linalg.norm(ref))
+        nweak += 1
+        run.count(f"krylov-weak-link:tridiagonal:n1={n1}")
+        if err > 3e-6:
+            run.violation("krylov:weak-link:stopped-early",
+                          dict(n=n, n1=n1, complex_A=cplx, dt=str(dt), block_size=bs, link=float(be[n1 - 1]), rel_err=err, krylov_steps=int(j),
+                               alpha=al.tolist(), beta=be.tolist(), family="tridiagonal chain with one weak link, start vector at its head",
+                               what="result differs from expm(dt A) v by more than 3e-6"))
     run.cov["krylov_weak_link_cases"] = nweak
     return done
 
